@@ -623,7 +623,7 @@ func c3NilPlaceholder(c *Ctx) {
 				}
 				if sv, ok := ConstString(*op); ok && sv == "<nil>" {
 					k++
-					c.Check(inHandler(fn, 0), "R3.8", FuncKey(fn), "placeholder#"+itoa(k), in.Pos(), "the \"<nil>\" placeholder is written only while recovering from a panic of the payload's own String()/Error()")
+					c.Check(inHandler(fn, 0) || underRecovered(in), "R3.8", FuncKey(fn), "placeholder#"+itoa(k), in.Pos(), "the \"<nil>\" placeholder is written only while recovering from a panic of the payload's own String()/Error()")
 				}
 			}
 		})
@@ -2248,4 +2248,78 @@ func c3GlobalInit(c *Ctx, st *ConcState, v ssa.Value) string {
 		return ""
 	}
 	return res
+}
+
+// returnsRecovered: fn hands the value its deferred literal recovered back to its caller as result #idx (the handler
+// stores recover() into a named result): the caller converts it.
+func returnsRecovered(fn *ssa.Function) (idx int, ok bool) {
+	if fn == nil || len(fn.Blocks) == 0 {
+		return 0, false
+	}
+	var cell *ssa.Alloc
+	AllInstrs(fn, func(i ssa.Instruction) {
+		df, isDf := i.(*ssa.Defer)
+		if !isDf {
+			return
+		}
+		mk, isMk := df.Call.Value.(*ssa.MakeClosure)
+		if !isMk {
+			return
+		}
+		g, _ := mk.Fn.(*ssa.Function)
+		if g == nil {
+			return
+		}
+		AllInstrs(g, func(j ssa.Instruction) {
+			st, isSt := j.(*ssa.Store)
+			if !isSt {
+				return
+			}
+			v := Strip(st.Val)
+			if cl, isCall := v.(*ssa.Call); !isCall || CallBuiltin(cl) != "recover" {
+				return
+			}
+			if fv, isFV := st.Addr.(*ssa.FreeVar); isFV {
+				for bi, b := range mk.Bindings {
+					if bi < len(g.FreeVars) && g.FreeVars[bi] == fv {
+						if a, isA := b.(*ssa.Alloc); isA {
+							cell = a
+						}
+					}
+				}
+			}
+		})
+	})
+	if cell == nil {
+		return 0, false
+	}
+	for _, r := range Returns(fn) {
+		for i, rv := range r.Results {
+			if u, isU := rv.(*ssa.UnOp); isU && u.Op == token.MUL && u.X == ssa.Value(cell) {
+				return i, true
+			}
+		}
+	}
+	return 0, false
+}
+
+// underRecovered: the instruction runs only where a value that a callee recovered (returnsRecovered) was found non-nil.
+func underRecovered(in ssa.Instruction) bool {
+	for _, a := range Guards(in) {
+		bo, ok := a.Cond.(*ssa.BinOp)
+		if !ok || !IsNilConst(bo.Y) || !((bo.Op == token.NEQ && a.Pol) || (bo.Op == token.EQL && !a.Pol)) {
+			continue
+		}
+		x := Strip(bo.X)
+		idx := 0
+		if ex, isEx := x.(*ssa.Extract); isEx {
+			x, idx = ex.Tuple, ex.Index
+		}
+		if cl, isCall := x.(*ssa.Call); isCall {
+			if ri, ok := returnsRecovered(cl.Call.StaticCallee()); ok && ri == idx {
+				return true
+			}
+		}
+	}
+	return false
 }
